@@ -696,6 +696,143 @@ theorem expectedSignature_inj (cfg : Cfg) (cr : Crypto) (clock : Clock) (ctx : C
   have h := (List.cons.inj (List.append_cancel_left h)).2
   exact hH h
 
+/-! ## collision-extraction form (audit P1.3): no injectivity hypothesis
+
+`Function.Injective sha256hex` is false for every real hash, so theorems that assume it say nothing about the judge's own
+`leanCrypto`. The statements below conclude instead: *either* the covered parts agree *or* an explicit collision of the hash /
+of the MAC exists — true for every `Crypto`, SHA-256 included, where exhibiting the collision is the (believed infeasible) task. -/
+
+/-- two different byte strings with the same `sha256hex` -/
+def ShaCollision (cr : Crypto) : Prop := ∃ x y, x ≠ y ∧ cr.sha256hex x = cr.sha256hex y
+
+/-- two different (key, message) pairs with the same `hmac` -/
+def HmacCollision (cr : Crypto) : Prop := ∃ k k' x y, (k ≠ k' ∨ x ≠ y) ∧ cr.hmac k x = cr.hmac k' y
+
+theorem no_collision_of_injective (cr : Crypto) (hH : Function.Injective cr.sha256hex) : ¬ ShaCollision cr := by
+  rintro ⟨x, y, hne, h⟩
+  exact hne (hH h)
+
+theorem sha_eq_or_collision (cr : Crypto) (x y : Bytes) (h : cr.sha256hex x = cr.sha256hex y) : x = y ∨ ShaCollision cr := by
+  by_cases e : x = y
+  · exact Or.inl e
+  · exact Or.inr ⟨x, y, e, h⟩
+
+theorem hmac_eq_or_collision (cr : Crypto) (k k' x y : Bytes) (h : cr.hmac k x = cr.hmac k' y) :
+    (k = k' ∧ x = y) ∨ HmacCollision cr := by
+  by_cases e : k = k' ∧ x = y
+  · exact Or.inl e
+  · refine Or.inr ⟨k, k', x, y, ?_, h⟩
+    by_cases ek : k = k'
+    · exact Or.inr (fun ex => e ⟨ek, ex⟩)
+    · exact Or.inl ek
+
+/-- same signing context: equal recomputed signatures give equal canonical requests, or a collision -/
+theorem expectedSignature_eq_or_collision (cfg : Cfg) (cr : Crypto) (clock : Clock) (ctx : Ctx) (secret : Bytes) (r1 r2 : Req)
+    (b1 b2 : Option Bytes)
+    (h : expectedSignature cfg cr clock ctx secret r1 b1 = expectedSignature cfg cr clock ctx secret r2 b2) :
+    canonicalRequest r1.method (canonURI r1.epath) (covered cfg clock ctx r1).2.2.1
+          (verifyLines r1 ctx.signedHeaders).flatten ctx.signedHeaders (hashBodyVerify cfg cr b1)
+       = canonicalRequest r2.method (canonURI r2.epath) (covered cfg clock ctx r2).2.2.1
+          (verifyLines r2 ctx.signedHeaders).flatten ctx.signedHeaders (hashBodyVerify cfg cr b2)
+    ∨ ShaCollision cr ∨ HmacCollision cr := by
+  unfold expectedSignature signature at h
+  rcases hmac_eq_or_collision cr _ _ _ _ (Sha256.hex_injective h) with ⟨_, hs⟩ | hc
+  · unfold stringToSign at hs
+    have hs := (List.cons.inj (List.append_cancel_left hs)).2
+    have hs := (List.cons.inj (List.append_cancel_left hs)).2
+    have hs := (List.cons.inj (List.append_cancel_left hs)).2
+    rcases sha_eq_or_collision cr _ _ hs with e | hc
+    · exact Or.inl e
+    · exact Or.inr (Or.inl hc)
+  · exact Or.inr (Or.inr hc)
+
+/-- header lines: a block of LF-terminated, LF-free, non-empty lines followed by an empty line determines the lines -/
+theorem bodies_inj : ∀ (L1 L2 : List Bytes) (x1 x2 : Bytes),
+    (∀ l ∈ L1, (10 : UInt8) ∉ l ∧ l ≠ []) → (∀ l ∈ L2, (10 : UInt8) ∉ l ∧ l ≠ []) →
+    (L1.map (· ++ [10])).flatten ++ 10 :: x1 = (L2.map (· ++ [10])).flatten ++ 10 :: x2 → L1 = L2 ∧ x1 = x2
+  | [], [], x1, x2, _, _, h => by simpa using h
+  | [], l :: L, x1, x2, _, h2, h => by
+    obtain ⟨hl, hne⟩ := h2 l (by simp)
+    cases l with
+    | nil => exact absurd rfl hne
+    | cons c r =>
+      simp only [List.map_nil, List.flatten_nil, List.nil_append, List.map_cons, List.flatten_cons, List.cons_append,
+        List.cons.injEq] at h
+      exact absurd h.1.symm (fun e => hl (by simp [e]))
+  | l :: L, [], x1, x2, h1, _, h => by
+    obtain ⟨hl, hne⟩ := h1 l (by simp)
+    cases l with
+    | nil => exact absurd rfl hne
+    | cons c r =>
+      simp only [List.map_nil, List.flatten_nil, List.nil_append, List.map_cons, List.flatten_cons, List.cons_append,
+        List.cons.injEq] at h
+      exact absurd h.1 (fun e => hl (by simp [e]))
+  | l1 :: L1, l2 :: L2, x1, x2, h1, h2, h => by
+    simp only [List.map_cons, List.flatten_cons, List.append_assoc, List.singleton_append] at h
+    obtain ⟨e1, e2⟩ := append_lf_inj (h1 l1 (by simp)).1 (h2 l2 (by simp)).1 h
+    obtain ⟨e3, e4⟩ := bodies_inj L1 L2 x1 x2 (fun l hl => h1 l (by simp [hl])) (fun l hl => h2 l (by simp [hl])) e2
+    exact ⟨by rw [e1, e3], e4⟩
+
+theorem lineBody_ne_nil (req : Req) (name : Bytes) : lineBody req name ≠ [] := by
+  unfold lineBody
+  intro h
+  have := congrArg List.length h
+  simp at this
+
+/-- what two canonical requests built under possibly **different** signing contexts agree on -/
+theorem canonical_injective_cross (r1 r2 : Req) (cq1 cq2 sh1 sh2 bh1 bh2 : Bytes)
+    (n1 : NoLF r1) (n2 : NoLF r2) (q1 : (10 : UInt8) ∉ cq1) (q2 : (10 : UInt8) ∉ cq2)
+    (s1 : (10 : UInt8) ∉ sh1) (s2 : (10 : UInt8) ∉ sh2)
+    (h : canonicalRequest r1.method (canonURI r1.epath) cq1 (verifyLines r1 sh1).flatten sh1 bh1
+       = canonicalRequest r2.method (canonURI r2.epath) cq2 (verifyLines r2 sh2).flatten sh2 bh2) :
+    r1.method = r2.method ∧ canonURI r1.epath = canonURI r2.epath ∧ cq1 = cq2 ∧ sh1 = sh2 ∧
+      (splitOn 59 sh1).map (lineBody r1) = (splitOn 59 sh1).map (lineBody r2) ∧ bh1 = bh2 := by
+  unfold canonicalRequest at h
+  obtain ⟨e1, h⟩ := append_lf_inj n1.method n2.method h
+  obtain ⟨e2, h⟩ := append_lf_inj (canonURI_no_lf _) (canonURI_no_lf _) h
+  obtain ⟨e3, h⟩ := append_lf_inj q1 q2 h
+  rw [verifyLines_eq, verifyLines_eq] at h
+  have hb : ∀ (r : Req) (n : NoLF r) (sh : Bytes), (10 : UInt8) ∉ sh →
+      ∀ l ∈ (splitOn 59 sh).map (lineBody r), (10 : UInt8) ∉ l ∧ l ≠ [] := by
+    intro r n sh hsh l hl
+    obtain ⟨nm, hnm, rfl⟩ := List.mem_map.mp hl
+    exact ⟨lineBody_no_lf n (fun hm => hsh (mem_splitOn hnm hm)), lineBody_ne_nil r nm⟩
+  have h' : (((splitOn 59 sh1).map (lineBody r1)).map (· ++ [10])).flatten ++ 10 :: (sh1 ++ 10 :: bh1)
+      = (((splitOn 59 sh2).map (lineBody r2)).map (· ++ [10])).flatten ++ 10 :: (sh2 ++ 10 :: bh2) := by
+    simpa [List.map_map, Function.comp_def] using h
+  obtain ⟨e4, h⟩ := bodies_inj _ _ _ _ (hb r1 n1 sh1 s1) (hb r2 n2 sh2 s2) h'
+  obtain ⟨e5, e6⟩ := append_lf_inj s1 s2 h
+  subst e5
+  exact ⟨e1, e2, e3, rfl, e4, e6⟩
+
+/-- **different** signing contexts: equal recomputed signatures give equal time string, scope string, signing key and
+canonical request — or a collision. `hclk`, `hs1`, `hs2`: the time string and the scope strings are LF-free (true for
+`time.Format` with the layout `20060102T150405Z`; for the scope in header mode by `NoLF`). -/
+theorem expectedSignature_cross_or_collision (cfg : Cfg) (cr : Crypto) (clock : Clock) (ctx1 ctx2 : Ctx) (sec1 sec2 : Bytes)
+    (r1 r2 : Req) (b1 b2 : Option Bytes)
+    (hclk : ∀ t, (10 : UInt8) ∉ clock.fmtTime t)
+    (hs1 : (10 : UInt8) ∉ scopeString cfg.lit clock ctx1.time ctx1.scopes)
+    (hs2 : (10 : UInt8) ∉ scopeString cfg.lit clock ctx2.time ctx2.scopes)
+    (h : expectedSignature cfg cr clock ctx1 sec1 r1 b1 = expectedSignature cfg cr clock ctx2 sec2 r2 b2) :
+    (clock.fmtTime ctx1.time = clock.fmtTime ctx2.time ∧
+     scopeString cfg.lit clock ctx1.time ctx1.scopes = scopeString cfg.lit clock ctx2.time ctx2.scopes ∧
+     deriveSigningKey cfg.lit cr clock sec1 ctx1.time ctx1.scopes = deriveSigningKey cfg.lit cr clock sec2 ctx2.time ctx2.scopes ∧
+     canonicalRequest r1.method (canonURI r1.epath) (covered cfg clock ctx1 r1).2.2.1
+          (verifyLines r1 ctx1.signedHeaders).flatten ctx1.signedHeaders (hashBodyVerify cfg cr b1)
+       = canonicalRequest r2.method (canonURI r2.epath) (covered cfg clock ctx2 r2).2.2.1
+          (verifyLines r2 ctx2.signedHeaders).flatten ctx2.signedHeaders (hashBodyVerify cfg cr b2))
+    ∨ ShaCollision cr ∨ HmacCollision cr := by
+  unfold expectedSignature signature at h
+  rcases hmac_eq_or_collision cr _ _ _ _ (Sha256.hex_injective h) with ⟨hk, hs⟩ | hc
+  · unfold stringToSign at hs
+    have hs := (List.cons.inj (List.append_cancel_left hs)).2
+    obtain ⟨et, hs⟩ := append_lf_inj (hclk _) (hclk _) hs
+    obtain ⟨es, hs⟩ := append_lf_inj hs1 hs2 hs
+    rcases sha_eq_or_collision cr _ _ hs with e | hc
+    · exact Or.inl ⟨et, es, hk, e⟩
+    · exact Or.inr (Or.inl hc)
+  · exact Or.inr (Or.inr hc)
+
 /-! ## the parser contract `NoLF`: checked per case by the judge, and what it rests on -/
 
 theorem noLFb_iff (req : Req) : noLFb req = true ↔ NoLF req := by
